@@ -5,17 +5,24 @@ From GoFlags Require Import Base.Str Base.Utf8 Golib.Strings Golib.Strconv
 Open Scope N_scope.
 
 (* ------------------------------------------------------------------ wrapText *)
-(* one line of the input: greedy wrap at the last space before byte l, hard break
-   with a hyphen when there is none.  Byte-based, as the Go code. Fuel = length. *)
+(* one line of the input: greedy wrap at the last space within the first l characters,
+   hard break with a hyphen when there is none.  Fuel = length. *)
+(* byte offset of the n-th character (length of s if there are fewer) *)
+Definition rune_offset (s : str) (n : nat) : nat :=
+  match nth_error (range_str s) n with
+  | Some (off, _, _) => off
+  | None => length s
+  end.
+
 Fixpoint wrap_line_fuel (fuel : nat) (line : str) (l : nat) (prefix : str) (retline : str) : str :=
   match fuel with
   | O => retline
   | S f =>
-    if Nat.ltb l (length line) then
+    if Nat.ltb l (rune_count line) then
       let '(pos, suffix) :=
-          match last_index_byte (firstn l line) 32 with
+          match last_index_byte (firstn (rune_offset line l) line) 32 with
           | Some p => (p, [])
-          | None => ((l - 1)%nat, [45; 10])
+          | None => (rune_offset line (l - 1), [45; 10])
           end in
       let retline := (if nonempty retline then retline ++ [10] ++ prefix else retline)
                      ++ trim_space (firstn pos line) ++ suffix in
